@@ -72,6 +72,7 @@ fn main() {
         "c03-l1" => agentl1::run_histories(&cfg, agentl1::Prop::C03),
         #[cfg(feature = "full")]
         "c04" => c04::run(&cfg),
+        "c08-agent" => c04::run_for_c08(&cfg),
         #[cfg(feature = "full")]
         "c07-agent" => c04::run_c07_agent(&cfg),
         #[cfg(feature = "full")]
@@ -112,6 +113,7 @@ fn main() {
         "c12b" => realwire::run_c12b(&cfg),
         #[cfg(feature = "full")]
         "c18b" => realwire::run_c18b(&cfg),
+        "c14-real" => realwire::run_c14_real(&cfg),
         #[cfg(feature = "full")]
         "c20-lib" => realwire::run_c20_lib(&cfg),
         "c13" => parse::run_c13(&cfg),
